@@ -382,6 +382,7 @@ func runC01(c *an.Ctx) {
 			asAlloc = an.AsTarget(call)
 		}
 	})
+	softCopies := map[*ssa.Alloc]bool{}
 	for _, st := range softStores {
 		fn := st.Parent()
 		tt, fff := c.T(fn), c.F(fn)
@@ -403,12 +404,23 @@ func runC01(c *an.Ctx) {
 			"SoftFailure is set exactly when the type-level check failed and the headers are not adjacent (no weaker, no stronger guard)", fn, st,
 			"extra conjuncts: ["+strings.Join(extra, ", ")+"]", fs)
 		// the struct written is the error that is returned: *asAlloc
+		// the struct written is a COPY of the error the type returned (or of the fresh wrapper): the
+		// error object belongs to the Header implementation, which may hand the same value out again —
+		// marked soft in place it stays soft, and the next adjacent (final) failure is reported soft
+		// as well (finding F20)
 		base := st.Addr.(*ssa.FieldAddr).X
 		okBase := false
-		if u, ok := base.(*ssa.UnOp); ok && asAlloc != nil && u.X == ssa.Value(asAlloc) {
-			okBase = true
+		if al, ok := base.(*ssa.Alloc); ok && asAlloc != nil {
+			for _, init := range an.AllocStores(al) {
+				if d, isD := init.Val.(*ssa.UnOp); isD {
+					if u, isU := d.X.(*ssa.UnOp); isU && u.X == ssa.Value(asAlloc) {
+						okBase = true
+						softCopies[al] = true
+					}
+				}
+			}
 		}
-		c.Check(okBase, "C01.d", "soft-target", "the SoftFailure flag is set on the *VerifyError that is returned (errors.As target or fresh wrapper)", fn, st, "base "+tt.Of(base), nil)
+		c.Check(okBase, "C01.d", "soft-target", "the SoftFailure flag is set on a copy of the *VerifyError in hand (errors.As target or fresh wrapper), never on the error object itself", fn, st, "base "+tt.Of(base), nil)
 	}
 	if asAlloc != nil {
 		// stores to the As target: only &VerifyError{Reason: typeErr} under ¬As
@@ -429,7 +441,11 @@ func runC01(c *an.Ctx) {
 			nRet++
 			v := an.Unwrap(errResult(r))
 			u, ok := v.(*ssa.UnOp)
-			c.Check(ok && u.X == ssa.Value(asAlloc), "C01.d", "typeerr-return", "after a failed type-level check the (possibly soft-marked) *VerifyError is returned", verify, r, "returns "+t.Of(v), fs)
+			okRet := ok && u.X == ssa.Value(asAlloc) && fs.Has(adj)
+			if al, isAl := v.(*ssa.Alloc); isAl && softCopies[al] && fs.Has(adj.Neg()) {
+				okRet = true // the soft-marked copy, for a non-adjacent header
+			}
+			c.Check(okRet, "C01.d", "typeerr-return", "after a failed type-level check the *VerifyError in hand is returned for an adjacent header and its soft-marked copy for a non-adjacent one", verify, r, "returns "+t.Of(v), fs)
 		}
 		c.Min("C01.d", "returns after failed type-level check", nRet, 1)
 	} else {
